@@ -116,12 +116,7 @@ Fixpoint zrange_n (a : Z) (n : nat) : list Z :=
   match n with O => [] | S m => a :: zrange_n (a + 1) m end.
 Definition zrange (a b : Z) : list Z := zrange_n a (Z.to_nat (b - a)).
 
-(* re.compile(br"Cpus_allowed_list:\t(\d+)-(\d+)").findall(data) -> first match *)
-Fixpoint span_digits (l : bytes) : bytes * bytes :=
-  match l with
-  | [] => ([], [])
-  | c :: r => if is_digit c then let (d, t) := span_digits r in (c :: d, t) else ([], l)
-  end.
+
 Fixpoint drop_prefix (p l : bytes) : option bytes :=
   match p with
   | [] => Some l
@@ -130,76 +125,85 @@ Fixpoint drop_prefix (p l : bytes) : option bytes :=
                | b :: l' => if a =? b then drop_prefix p' l' else None
                end
   end.
-Definition re_here (s : bytes) : option (bytes * bytes) :=
-  match drop_prefix status_lit s with
-  | None => None
-  | Some r =>
-    let (d1, t1) := span_digits r in
-    match d1, t1 with
-    | _ :: _, 45 :: t2 =>
-      let (d2, _) := span_digits t2 in
-      match d2 with [] => None | _ => Some (d1, d2) end
-    | _, _ => None
+
+(* re.compile(br"(?m)^Cpus_allowed_list:\t([\d,-]+)$").search(data): the first line that is
+   exactly the key followed by a non-empty run of digits, commas and dashes *)
+Definition is_listc (c : Z) : bool := is_digit c || (c =? 44) || (c =? 45).
+Fixpoint find_list_line (ls : list bytes) : option bytes :=
+  match ls with
+  | [] => None
+  | l :: r =>
+    match drop_prefix status_lit l with
+    | Some (c :: v) => if forallb is_listc (c :: v) then Some (c :: v) else find_list_line r
+    | _ => find_list_line r
     end
   end.
-Fixpoint re_search (s : bytes) : option (bytes * bytes) :=
-  match s with
-  | [] => None
-  | _ :: r => match re_here s with Some m => Some m | None => re_search r end
+(* item.partition(b"-") -> (first, last) *)
+Fixpoint partition_dash (l : bytes) : bytes * bytes :=
+  match l with
+  | [] => ([], [])
+  | c :: r => if c =? 45 then ([], r) else let (a, b) := partition_dash r in (c :: a, b)
   end.
+(* range(int(first), int(last or first) + 1) *)
+Definition parse_item (item : bytes) : outcome (list Z) :=
+  let (first, last) := partition_dash item in
+  do a <- py_int first;
+  do b <- py_int (match last with [] => first | _ => last end);
+  Val (zrange a (b + 1)).
 
 (* _pslinux.Process._get_eligible_cpus *)
 Definition get_eligible_cpus (pid : Z) (k : kernel) : outcome (list Z) :=
   match kget pid k with
   | None => Exc NoSuchProcess
   | Some p =>
-    match re_search (k_status p) with
-    | Some (d1, d2) => Val (zrange (dec_val d1) (dec_val d2 + 1))
+    match find_list_line (split_on 10 (k_status p)) with
+    | Some v =>
+      if contains 45 v
+      then do ls <- mapM parse_item (split_on 44 v); Val (concat ls)
+      else Val (zrange 0 (k_ncpu k))
     | None => Val (zrange 0 (k_ncpu k))
     end
   end.
 
-(* psutil_proc_cpu_affinity_set: PyLong_AsLong per item, -1 -> ValueError,
-   CPU_SET ignores ids outside 0..1023 of the fixed cpu_set_t *)
+(* psutil_proc_cpu_affinity_set: PyLong_AsLong per item (OverflowError beyond a C long),
+   -1 -> ValueError, CPU_SET ignores ids outside 0..1023 of the fixed cpu_set_t.
+   With both kinds of bad item present the set order decides which error is raised;
+   both are handled alike by the caller (lemma diagnose_value), the model picks ValueError. *)
 Definition c_build_set (l : list Z) : outcome (list Z) :=
-  if existsb (fun v => negb (fits_long v)) l then
-    (* PyLong_AsLong fails: OverflowError -- unless a -1 item is met first (set order: not modelled) *)
-    if existsb (fun v => v =? -1) l then OutOfModel else Exc OverflowError
-  else if existsb (fun v => v =? -1) l then Exc ValueError
+  if existsb (fun v => v =? -1) l then Exc ValueError
+  else if existsb (fun v => negb (fits_long v)) l then Exc OverflowError
   else Val (filter (fun v => (0 <=? v) && (v <? 1024)) l).
 
-(* _pslinux.cpu_affinity_set, with its diagnosis of EINVAL / ValueError *)
-Definition diagnose (pid : Z) (cpus : list Z) (reraise : exn) (k : kernel) : outcome resv :=
+(* _pslinux.cpu_affinity_set: diagnosis after ValueError / OverflowError / EINVAL *)
+Definition diagnose (pid : Z) (cpus : list Z) (err_is_value : bool) (k : kernel) : outcome resv :=
   match get_eligible_cpus pid k with
   | Val eligible =>
     let all_cpus := zrange 0 (k_ncpu k) in
     if existsb (fun c => negb (memz c all_cpus) || negb (memz c eligible)) cpus
-    then Exc ValueError else Exc reraise
+    then Exc ValueError                       (* "invalid CPU" / "is not eligible" *)
+    else if err_is_value then Exc ValueError  (* bare raise of the ValueError *)
+    else Exc ValueError                       (* "none of the CPUs ... is eligible" *)
   | Exc e => Exc e
   | OutOfModel => OutOfModel
   end.
 Definition pl_cpu_affinity_set (pid : Z) (cpus : list Z) (k : kernel) : outcome resv * kernel :=
   match c_build_set cpus with
-  | Exc ValueError => (diagnose pid cpus ValueError k, k)
+  | Exc ValueError => (diagnose pid cpus true k, k)
+  | Exc OverflowError => (diagnose pid cpus false k, k)
   | Exc e => (Exc e, k)
   | OutOfModel => (OutOfModel, k)
   | Val set =>
     match sys_sched_setaffinity pid set k with
     | (SOk _, k') => (Val RNone, k')
-    | (SErr EINVAL, _) => (diagnose pid cpus OSError k, k)
+    | (SErr EINVAL, _) => (diagnose pid cpus false k, k)
     | (SErr e, _) => (Exc (wrap e), k)
     end
   end.
-(* Process.cpu_affinity *)
+(* Process.cpu_affinity; on Linux [] names every CPU of a cpu_set_t and the kernel clips *)
 Definition cpu_affinity (pid : Z) (cpus : option (list Z)) (k : kernel) : outcome resv * kernel :=
   match cpus with
   | None => (omap (fun m => RList (sort_dedup m)) (c_affinity_get pid k), k)
-  | Some [] =>
-    match get_eligible_cpus pid k with
-    | Val el => pl_cpu_affinity_set pid (dedup el) k
-    | Exc e => (Exc e, k)
-    | OutOfModel => (OutOfModel, k)
-    end
+  | Some [] => pl_cpu_affinity_set pid (dedup (zrange 0 1024)) k
   | Some l => pl_cpu_affinity_set pid (dedup l) k
   end.
 
